@@ -23,6 +23,7 @@ def base_scenarios(rng, n):
     fixed.append(Scenario(reads([b'HTTP/1.1 404 Nope\r\n\r\n']) + [('wait', 1, ('eof',))], {}, prate=0))
     fixed.append(Scenario(reads([sc.good_reply()]) + [('wait', 0, ('data', server_frame(8, close_payload(1001, b''))))] + [('wait', 1, ('eof',))], {2: [('close', 1000, ('b', b'x'))]}, prate=0))
     fixed.append(Scenario([('wait', 1, ('eof',))], {}, conn='sockfail'))
+    fixed.append(Scenario([('wait', 1, ('eof',))], {}, conn='selfail'))        # the selector cannot be created
     fixed.append(Scenario([('wait', 1, ('eof',))], {}, wfail={0}))          # upgrade request cannot be written
     fixed.append(Scenario([('wait', 1, ('eof',))], {0: [('close', 1000, ('b', b''))]}))     # close() at Connecting: request refused
     fixed.append(Scenario(reads([sc.good_reply()]) + [('wait', 0, ('sockerr',))], {}, prate=0))
@@ -37,7 +38,7 @@ def explore(res, tier, seed, model_ok=True):
     nbase = 25 if tier == 'quick' else 250
     res.rule = ('%d base scenarios (10 fixed covering every yield point of run(): Connecting, ConnectFail, Connected, housekeeping Poll, Unresponsive, Ready, messages, Closing, Closed, Rejected, ProtocolError, Disconnected; rest random) '
                 'x every event index x 4 abandonment mechanisms (generator close(), break+drop, exception in handler, exception leaving a with-block); '
-                'oracle: simulated socket and selector both closed afterwards; non-trivial = abandonment at an event where a socket exists; distinct by (scenario, index, mechanism)') % nbase
+                'a sample of the same abandonments as the second connection on an object whose first connection ran in a with-block / raised / was closed by the server; oracle: simulated socket and selector both closed afterwards; non-trivial = abandonment at an event where a socket exists; distinct by (scenario, index, mechanism)') % nbase
     bases = base_scenarios(rng, nbase)
     base_pairs = coreutil.run_pairs(bases, model_ok)
     scs, meta = [], []
@@ -63,8 +64,44 @@ def explore(res, tier, seed, model_ok=True):
             res.failures.append(dict(cls='leak-at-' + evname, what='abandoning at %s by %s leaves %s open' % (evname, mech, 'socket' if 'sock=1' in end else 'selector'),
                                      input=line[-1200:], scenario=js, observed=end))
     coreutil.check_corr(res, pairs)
+    # the same abandonments on an object with a history: earlier connections on the SAME WebSocket object that were used
+    # inside a with-block / abandoned in other ways (state kept on the object must not keep the new connection's generator alive)
+    g = Scenario([]).good_reply()
+    prevs = [('with-abandoned', Scenario(reads([g + server_frame(2, b'zz')]), {4: [('abandon', 'with')]}, prate=0)),
+             ('with-completed', Scenario(reads([g]) + [('wait', 0, ('eof',))], {0: [('abandon', 'with')]}, prate=0)),
+             ('raised', Scenario(reads([g]), {2: [('abandon', 'raise')]}, prate=0)),
+             ('closed-by-server', Scenario(reads([g + server_frame(8, close_payload(1000, b''))]) + [('wait', 0, ('eof',))], {}, prate=0))]
+    # 'with-completed': the with-block is entered, the abandonment at Connecting leaves it at once (no socket yet)
+    step = max(1, len(scs) // (60 if tier == 'quick' else 600))
+    chains, cmeta = [], []
+    for k in range(0, len(scs), step):
+        name, prev = prevs[(k // step) % len(prevs)]
+        js = pairs[k][0]
+        if isinstance(pairs[k][2], dict):
+            continue
+        pj = coreutil.scenario_to_json(prev)
+        pj['compress'], pj['url'], pj['protocols'] = js['compress'], js['url'], js['protocols']      # constructor arguments belong to the object
+        chains.append([pj, js]); cmeta.append((name, k))
+    traces = runner.parallel_map('coreutil', 'real_chain', chains, chunk=10)
+    for ch, tr, (name, k) in zip(chains, traces, cmeta):
+        if isinstance(tr, dict):
+            res.crashes.append(tr); continue
+        evname, mech = meta[k]
+        res.case(('after', name, pairs[k][1], mech), nontrivial=evname not in ('connecting', 'connect_fail'))
+        res.count('after_' + name)
+        end = tr[-1].split(' ')[-1]
+        if 'sock=1' in end or 'sel=1' in end:
+            res.failures.append(dict(cls='leak-at-' + evname, what='on an object whose previous connection was "%s": abandoning at %s by %s leaves %s open' % (name, evname, mech, 'socket' if 'sock=1' in end else 'selector'),
+                                     input=dict(previous=ch[:-1], next=ch[-1]), observed=end))
+        elif tr[-1] != pairs[k][2]:
+            res.diffs.append(dict(input=pairs[k][1][:2000], real=tr[-1][-1000:], model=(pairs[k][3] or pairs[k][2])[-1000:], scenario=pairs[k][0], previous=ch[:-1]))
     res.samples += [pairs[9][1][-300:], pairs[-1][1][-300:]]
 
 
 def replay(rp):
+    inp = rp.get('input')
+    if isinstance(inp, dict) and 'previous' in inp:
+        for t in coreutil.real_chain(inp['previous'] + [inp['next']]):
+            print(t)
+        return 0
     return coreutil.replay_core(rp)
